@@ -567,7 +567,14 @@ def write_bytes(u: U):
             return SAwait(name="body.write", raises=(OSError(5, "io"), asyncio.TimeoutError(), asyncio.CancelledError, Boom))
 
     cont = u.choose(2, "expect_continue") == 1
-    req = u.obj("ClientRequest", {"_continue": SAwait(name="100-continue") if cont else None, "_body": _Body(), "url": "URL"},
+    def waiting_for_100():
+        # the request head is out, the peer's answer (100 Continue or a final response) is being awaited
+        u.check("C18.sockread.wait_for_100_continue_is_timed", ("start_timeout",) in log,
+                "while the client waits for '100 Continue' it is awaiting a response: the sock_read timer is armed, so a "
+                "peer that reads the request head and never answers is timed out", known=[("F18b", True)])
+
+    req = u.obj("ClientRequest", {"_continue": SAwait(name="100-continue", on_suspend=waiting_for_100) if cont else None,
+                                  "_body": _Body(), "url": "URL"},
                 {}, shared=False)
     f = u.load(RR, "ClientRequest._write_bytes",
                globals={"set_exception": lambda p, exc, cause=None: log.append(("set_exception", p, type(exc).__name__))})
